@@ -38,6 +38,10 @@ var fnWhitelist = map[string][]string{
 		"Export.isRevoked", "Export.IsClaimRevoked", "Export.RevokeAt", "Export.Revoke", "Export.ClearRevocation",
 		"NatsLimits.IsUnlimited", "JetStreamLimits.IsUnlimited", "UserLimits.IsUnlimited", "Limits.IsUnlimited",
 		"WeightedMapping.GetWeight",
+		"OperatorClaims.Claims", "AccountClaims.Claims", "UserClaims.Claims", "ActivationClaims.Claims", "AuthorizationRequestClaims.Claims",
+		"AuthorizationResponseClaims.Claims", "GenericClaims.Claims",
+		"SigningKeys.Contains", "OperatorClaims.DidSign", "AccountClaims.DidSign",
+		"RenamingSubject.Validate",
 		"ServiceLatency.Validate", "Export.IsService", "Export.IsStream", "Export.IsSingleResponse", "Export.IsChunkedResponse", "Export.IsStreamResponse",
 		"Export.Validate", "isContainedIn", "Exports.Validate", "Exports.HasExportContainingSubject", "Mapping.Validate",
 	},
@@ -69,15 +73,19 @@ type fnInfo struct {
 }
 
 type fnGen struct {
-	p       *packages.Package
-	short   string
-	fns     map[string]*fnInfo // by key
-	structs map[string]*types.Struct
-	order   []string
-	out     strings.Builder
-	unsupp  map[string]string
-	opaque  map[string]*types.Func // package functions called but deliberately not translated: fields of `Opq`
-	opqOrd  []string
+	p          *packages.Package
+	short      string
+	fns        map[string]*fnInfo // by key
+	structs    map[string]*types.Struct
+	order      []string
+	out        strings.Builder
+	unsupp     map[string]string
+	opaque     map[string]*types.Func // package functions called but deliberately not translated: fields of `Opq`
+	opqOrd     []string
+	ifaces     map[string][]string // package interface -> names of the struct types whose pointer implements it
+	dispatch   map[string]bool     // emitted interface dispatchers
+	foreign    map[string]bool
+	foreignOrd []string
 }
 
 type fnCtx struct {
@@ -93,6 +101,7 @@ type fnCtx struct {
 	declared map[types.Object]bool // declared so far in the current def (for `let mut` vs `:=`)
 	rawPtr   map[string]bool       // terms that are pure values of type `Option T` (nilable pointers)
 	ptrInner map[string]string     // nilable pointers reached through a computation: the `Option T` value inside a do block
+	closures map[types.Object]bool // local function literals (single-return, pure)
 	nilVars  map[types.Object]bool // local / range variables holding nilable pointers
 }
 
@@ -111,6 +120,10 @@ func (g *fnGen) leanType(t types.Type) string {
 			}
 			g.needStruct(u.Obj().Name(), st)
 			return "T_" + u.Obj().Name()
+		}
+		if it, ok := u.Underlying().(*types.Interface); ok && u.Obj().Pkg() == g.p.Types && it.NumMethods() > 0 {
+			g.needIface(u.Obj().Name(), it)
+			return "(Option I_" + u.Obj().Name() + ")"
 		}
 		return g.leanType(u.Underlying())
 	case *types.Basic:
@@ -151,6 +164,34 @@ var nilableElems = map[string]bool{"Export": true, "Import": true}
 // is a parameter of the translated caller: a field of the generated structure `Opq`)
 var opaqueFns = map[string]bool{"Info.Validate": true}
 
+// foreignOpaque: functions of other packages that translated code may call; each becomes a field of `Opq`
+// (name, Lean type of the field, and how a two-value result is read)
+var foreignOpaque = map[string]string{
+	"strconv.Atoi": "Str → Option Int", // none = the error result
+}
+
+func (g *fnGen) foreignCall(call *ast.CallExpr) string {
+	q := selName(call.Fun)
+	if _, ok := foreignOpaque[q]; !ok {
+		return ""
+	}
+	if se, ok := call.Fun.(*ast.SelectorExpr); ok {
+		if pid, ok := se.X.(*ast.Ident); ok {
+			if _, isPkg := g.p.TypesInfo.Uses[pid].(*types.PkgName); isPkg {
+				if g.foreign == nil {
+					g.foreign = map[string]bool{}
+				}
+				if !g.foreign[q] {
+					g.foreign[q] = true
+					g.foreignOrd = append(g.foreignOrd, q)
+				}
+				return q
+			}
+		}
+	}
+	return ""
+}
+
 func ptrToStruct(t types.Type) (*types.Named, bool) {
 	pt, ok := t.Underlying().(*types.Pointer)
 	if !ok {
@@ -186,6 +227,55 @@ func (g *fnGen) fieldLean(st *types.Struct, i int) (lt, z string) {
 	return
 }
 
+// needIface: a package interface is the sum of the package's struct types whose pointer implements it; a value of
+// interface type is `Option I_X` (`none` = nil interface)
+func (g *fnGen) needIface(name string, it *types.Interface) {
+	if g.ifaces == nil {
+		g.ifaces = map[string][]string{}
+	}
+	if _, ok := g.ifaces[name]; ok {
+		return
+	}
+	g.ifaces[name] = []string{}
+	sc := g.p.Types.Scope()
+	names := sc.Names()
+	sort.Strings(names)
+	var impls []string
+	for _, n := range names {
+		tn, ok := sc.Lookup(n).(*types.TypeName)
+		if !ok {
+			continue
+		}
+		named, ok := tn.Type().(*types.Named)
+		if !ok {
+			continue
+		}
+		st, ok := named.Underlying().(*types.Struct)
+		if !ok {
+			continue
+		}
+		if types.Implements(types.NewPointer(named), it) || types.Implements(named, it) {
+			g.needStruct(n, st)
+			impls = append(impls, n)
+		}
+	}
+	g.ifaces[name] = impls
+	g.order = append(g.order, "I:"+name)
+}
+
+// ifaceOf: the package interface behind a type (nil if none)
+func (g *fnGen) ifaceOf(t types.Type) (string, bool) {
+	n, ok := t.(*types.Named)
+	if !ok || n.Obj().Pkg() != g.p.Types {
+		return "", false
+	}
+	it, ok := n.Underlying().(*types.Interface)
+	if !ok || it.NumMethods() == 0 {
+		return "", false
+	}
+	return n.Obj().Name(), true
+}
+
 func (g *fnGen) needStruct(name string, st *types.Struct) {
 	if _, ok := g.structs[name]; ok {
 		return
@@ -214,6 +304,8 @@ func (g *fnGen) zero(t types.Type) string {
 		return "(none : " + lt[1:len(lt)-1] + ")"
 	case strings.HasPrefix(lt, "T_"):
 		return "(default : " + lt + ")"
+	case strings.HasPrefix(lt, "(Option "):
+		return "none"
 	}
 	unsup("zero value of %s", lt)
 	return ""
@@ -253,6 +345,9 @@ func (g *fnGen) nilCompared(fd *ast.FuncDecl, params []*types.Var, hasRecv bool)
 // varType: Lean type of a variable (nilable pointers are `Option T`)
 func (c *fnCtx) varType(o types.Object) string {
 	lt := c.g.leanType(o.Type())
+	if _, ok := c.g.ifaceOf(o.Type()); ok {
+		return lt // already `Option I_X`
+	}
 	if c.fi.optPtr[o] || c.nilVars[o] {
 		return "(Option " + lt + ")"
 	}
@@ -261,6 +356,9 @@ func (c *fnCtx) varType(o types.Object) string {
 
 func (c *fnCtx) paramType(p *types.Var) string {
 	lt := c.g.leanType(p.Type())
+	if _, ok := c.g.ifaceOf(p.Type()); ok {
+		return lt
+	}
 	if c.fi.optPtr[p] {
 		return "(Option " + lt + ")"
 	}
@@ -802,7 +900,8 @@ func (c *fnCtx) binary(x *ast.BinaryExpr) ex {
 		}
 		if other != nil {
 			t := c.typeOf(other)
-			if _, ok := ptrToStruct(t); ok {
+			_, isIface := c.g.ifaceOf(t)
+			if _, ok := ptrToStruct(t); ok || isIface {
 				a := c.expr(other)
 				if inner, ok := c.ptrInner[a.s]; ok {
 					if x.Op == token.EQL {
@@ -968,6 +1067,13 @@ func (c *fnCtx) call(x *ast.CallExpr) ex {
 		return c.expr(x.Args[0])
 	}
 	if id, ok := x.Fun.(*ast.Ident); ok {
+		if o := c.g.p.TypesInfo.Uses[id]; o != nil && c.closures[o] {
+			var as []ex
+			for _, a := range x.Args {
+				as = append(as, c.expr(a))
+			}
+			return c.pureApp(c.nameOf(o), as...)
+		}
 		switch id.Name {
 		case "len":
 			a := c.expr(x.Args[0])
@@ -1056,6 +1162,11 @@ func (c *fnCtx) call(x *ast.CallExpr) ex {
 			}
 		}
 	}
+	if se, ok := x.Fun.(*ast.SelectorExpr); ok {
+		if in, ok := c.g.ifaceOf(c.typeOf(se.X)); ok {
+			return c.ifaceCall(in, se, x)
+		}
+	}
 	if fi := c.g.callee(x); fi != nil {
 		anyMut := false
 		for _, m := range fi.mutated {
@@ -1068,6 +1179,43 @@ func (c *fnCtx) call(x *ast.CallExpr) ex {
 	}
 	unsup("call %s", selNameAny(x.Fun))
 	return ex{}
+}
+
+// ifaceCall: a method call on a value of a package interface: dispatch on the dynamic type. Every implementor's
+// method must be translated, take no further arguments and mutate nothing.
+func (c *fnCtx) ifaceCall(in string, se *ast.SelectorExpr, x *ast.CallExpr) ex {
+	if len(x.Args) != 0 {
+		unsup("interface method call with arguments")
+	}
+	m := se.Sel.Name
+	dname := "I_" + in + "." + m
+	if !c.g.dispatch[dname] {
+		var ret string
+		var alts []string
+		for _, impl := range c.g.ifaces[in] {
+			fi, ok := c.g.fns[impl+"."+m]
+			if !ok || fi.retType == "" {
+				unsup("interface method %s.%s: %s.%s is not translated", in, m, impl, m)
+			}
+			for _, mu := range fi.mutated {
+				if mu {
+					unsup("interface method %s.%s mutates", in, m)
+				}
+			}
+			if ret != "" && ret != fi.retType {
+				unsup("interface method %s.%s: result types differ", in, m)
+			}
+			ret = fi.retType
+			alts = append(alts, fmt.Sprintf("  | .%s v => %s v", impl, fi.leanName))
+		}
+		if c.g.dispatch == nil {
+			c.g.dispatch = map[string]bool{}
+		}
+		c.g.dispatch[dname] = true
+		c.aux = append(c.aux, fmt.Sprintf("/-- dynamic dispatch of `%s.%s` -/\ndef %s (c : I_%s) : Option %s :=\n  match c with\n%s\n", in, m, dname, in, ret, strings.Join(alts, "\n")))
+	}
+	recv := c.expr(se.X)
+	return ex{"(" + dname + " " + recv.bind() + ")", true}
 }
 
 func selNameAny(e ast.Expr) string {
@@ -1557,6 +1705,45 @@ func (c *fnCtx) assign(b *block, x *ast.AssignStmt) {
 	default:
 		unsup("assignment %s", x.Tok)
 	}
+	// v, ok := x.(*T)
+	if len(x.Lhs) == 2 && len(x.Rhs) == 1 {
+		if ta, ok := x.Rhs[0].(*ast.TypeAssertExpr); ok && ta.Type != nil {
+			in, isI := c.g.ifaceOf(c.typeOf(ta.X))
+			tn, isP := ptrToStruct(c.typeOf(ta.Type))
+			src := c.expr(ta.X)
+			if !isI || !isP || !c.rawPtr[src.s] {
+				unsup("type assertion outside the subset")
+			}
+			c.g.leanType(c.typeOf(ta.Type))
+			val := fmt.Sprintf("(match %s with | some (I_%s.%s __x) => some __x | _ => none)", src.s, in, tn.Obj().Name())
+			if id, ok := x.Lhs[0].(*ast.Ident); ok && id.Name != "_" {
+				o := c.g.p.TypesInfo.Defs[id]
+				if o == nil {
+					unsup("type assertion into an existing variable")
+				}
+				c.nilVars[o] = true
+				c.assignVar(b, o, val)
+				c.store(b, x.Lhs[1], "("+c.nameOf(o)+").isSome")
+			} else {
+				c.store(b, x.Lhs[1], "("+val+").isSome")
+			}
+			return
+		}
+	}
+	// v, err := strconv.Atoi(s)
+	if len(x.Lhs) == 2 && len(x.Rhs) == 1 {
+		if call, ok := x.Rhs[0].(*ast.CallExpr); ok {
+			if q := c.g.foreignCall(call); q != "" {
+				a := c.expr(call.Args[0])
+				c.tmpN++
+				tmp := fmt.Sprintf("__f%d", c.tmpN)
+				b.add("let %s := opq.%s %s", tmp, strings.ReplaceAll(q, ".", "_"), a.bind())
+				c.store(b, x.Lhs[0], "("+tmp+".getD (0 : Int))")
+				c.store(b, x.Lhs[1], tmp+".isNone")
+				return
+			}
+		}
+	}
 	// v, ok := m[k]
 	if len(x.Lhs) == 2 && len(x.Rhs) == 1 {
 		if ix, ok := x.Rhs[0].(*ast.IndexExpr); ok {
@@ -1578,6 +1765,34 @@ func (c *fnCtx) assign(b *block, x *ast.AssignStmt) {
 	}
 	if len(x.Lhs) > 1 {
 		unsup("parallel assignment")
+	}
+	// a local function literal with a single return: `f := func(a T) R { return e }`
+	if fl, ok := x.Rhs[0].(*ast.FuncLit); ok && x.Tok == token.DEFINE {
+		id, ok := x.Lhs[0].(*ast.Ident)
+		if !ok || len(fl.Body.List) != 1 {
+			unsup("function literal outside the subset")
+		}
+		rs, ok := fl.Body.List[0].(*ast.ReturnStmt)
+		if !ok || len(rs.Results) != 1 {
+			unsup("function literal outside the subset")
+		}
+		var ps []string
+		for _, f := range fl.Type.Params.List {
+			for _, n := range f.Names {
+				o := c.g.p.TypesInfo.Defs[n]
+				c.declared[o] = true
+				ps = append(ps, fmt.Sprintf("(%s : %s)", c.nameOf(o), c.g.leanType(o.Type())))
+			}
+		}
+		body := c.expr(rs.Results[0])
+		if body.m {
+			unsup("partial function literal")
+		}
+		o := c.g.p.TypesInfo.Defs[id]
+		c.closures[o] = true
+		c.declared[o] = true
+		b.add("let %s := fun %s => %s", c.nameOf(o), strings.Join(ps, " "), body.s)
+		return
 	}
 	// mutating call on the right-hand side: x := recv.M(...)
 	if call, ok := x.Rhs[0].(*ast.CallExpr); ok {
@@ -1715,7 +1930,7 @@ func (c *fnCtx) rangeStmt(b *block, x *ast.RangeStmt) {
 	loopName := fmt.Sprintf("%s.loop%d", c.fi.leanName, c.loopN)
 
 	// ---- body definition
-	sub := &fnCtx{g: c.g, fi: c.fi, names: c.names, taken: c.taken, loopN: c.loopN, inLoop: true, state: state, tmpN: c.tmpN, rawPtr: c.rawPtr, nilVars: c.nilVars, ptrInner: c.ptrInner,
+	sub := &fnCtx{g: c.g, fi: c.fi, names: c.names, taken: c.taken, loopN: c.loopN, inLoop: true, state: state, tmpN: c.tmpN, rawPtr: c.rawPtr, nilVars: c.nilVars, ptrInner: c.ptrInner, closures: c.closures,
 		declared: map[types.Object]bool{}}
 	var params []string
 	for _, o := range captured {
@@ -1883,6 +2098,11 @@ func (g *fnGen) prepare(fd *ast.FuncDecl, key string) (fi *fnInfo, err string) {
 	fi.usesNow = usesTimeNow(fd.Body)
 	fi.mutated = make([]bool, len(fi.params))
 	fi.optPtr = g.nilCompared(fd, fi.params, sig.Recv() != nil)
+	for _, p := range fi.params {
+		if _, ok := g.ifaceOf(p.Type()); ok {
+			fi.optPtr[p] = true // a value of interface type can be nil
+		}
+	}
 	return fi, ""
 }
 
@@ -1926,7 +2146,7 @@ func genFns(infos []pkgInfo) (string, string, map[string]string) {
 			changed = false
 			for _, k := range keys {
 				fi := g.fns[k]
-				c := &fnCtx{g: g, fi: fi, names: map[types.Object]string{}, taken: map[string]bool{}, rawPtr: map[string]bool{}, nilVars: map[types.Object]bool{}, ptrInner: map[string]string{}}
+				c := &fnCtx{g: g, fi: fi, names: map[types.Object]string{}, taken: map[string]bool{}, rawPtr: map[string]bool{}, nilVars: map[types.Object]bool{}, ptrInner: map[string]string{}, closures: map[types.Object]bool{}}
 				w := c.written(fi.fd.Body)
 				for i, p := range fi.params {
 					if !w[p] || fi.mutated[i] {
@@ -1953,6 +2173,9 @@ func genFns(infos []pkgInfo) (string, string, map[string]string) {
 					call, ok := n.(*ast.CallExpr)
 					if !ok {
 						return true
+					}
+					if g.foreignCall(call) != "" && !fi.usesOpq {
+						fi.usesOpq, changed = true, true
 					}
 					cal := g.callee(call)
 					if cal == nil {
@@ -1983,6 +2206,15 @@ func genFns(infos []pkgInfo) (string, string, map[string]string) {
 		}
 		out.WriteString("namespace " + pi.short + "\n\n")
 		for _, n := range g.order {
+			if strings.HasPrefix(n, "I:") {
+				in := n[2:]
+				fmt.Fprintf(&out, "/-- interface `%s`: the dynamic type and value it holds -/\ninductive I_%s where\n", in, in)
+				for _, impl := range g.ifaces[in] {
+					fmt.Fprintf(&out, "  | %s (v : T_%s)\n", impl, impl)
+				}
+				fmt.Fprintf(&out, "  deriving DecidableEq\n\n")
+				continue
+			}
 			st := g.structs[n]
 			fmt.Fprintf(&out, "structure T_%s where\n", n)
 			for i := 0; i < st.NumFields(); i++ {
@@ -1995,16 +2227,22 @@ func genFns(infos []pkgInfo) (string, string, map[string]string) {
 			}
 			fmt.Fprintf(&out, "  deriving Inhabited, DecidableEq\n\n")
 		}
-		if len(g.opqOrd) > 0 {
+		if len(g.opqOrd)+len(g.foreignOrd) > 0 {
 			out.WriteString("/-- package functions that translated code calls but that are not translated themselves: their behaviour is a\nparameter (tie theorems instantiate it with the model's function) -/\nstructure Opq where\n")
 			for _, k := range g.opqOrd {
 				fmt.Fprintf(&out, "  %s : %s\n", strings.ReplaceAll(k, ".", "_"), g.opqFieldType(g.opaque[k]))
+			}
+			for _, k := range g.foreignOrd {
+				fmt.Fprintf(&out, "  %s : %s\n", strings.ReplaceAll(k, ".", "_"), foreignOpaque[k])
 			}
 			out.WriteString("\n")
 		}
 		out.WriteString(body.String())
 		ov.WriteString("namespace " + pi.short + "\n\n")
 		for _, n := range g.order {
+			if strings.HasPrefix(n, "I:") {
+				continue
+			}
 			ov.WriteString(g.ofVal(n))
 		}
 		ov.WriteString("end " + pi.short + "\n\n")
@@ -2155,7 +2393,7 @@ func (g *fnGen) emit(fi *fnInfo, emitted map[string]bool) (text string, err stri
 		}
 		return true
 	})
-	c := &fnCtx{g: g, fi: fi, names: map[types.Object]string{}, taken: map[string]bool{}, declared: map[types.Object]bool{}, rawPtr: map[string]bool{}, nilVars: map[types.Object]bool{}, ptrInner: map[string]string{}}
+	c := &fnCtx{g: g, fi: fi, names: map[types.Object]string{}, taken: map[string]bool{}, declared: map[types.Object]bool{}, rawPtr: map[string]bool{}, nilVars: map[types.Object]bool{}, ptrInner: map[string]string{}, closures: map[types.Object]bool{}}
 	// return type
 	var rts []string
 	for i, m := range fi.mutated {
